@@ -43,6 +43,27 @@ Check quadratic_residual_bound : forall (eps : R) (O : RoundOps) (a b c : C),
       (Cmod (a * x * x + b * x + c)%C <= 16 * eps * (Cmod a * Cmod x * Cmod x + Cmod b * Cmod x + Cmod c))%R.
 Print Assumptions quadratic_residual_bound.
 
+(* the same bound from the LOCAL hypotheses only: [quad_ops_ok eps O a b c] (Proofs/RootsRound.v) says that each of the at most
+   twelve rounded operations quadratic_solve performs ON THIS INPUT -- b*b, a*4.0, (4a)*c, the subtraction, sqrt(disc),
+   conj(b)*sqrt(disc), sqrt(disc)*sgn, the addition, the scaling by -0.5, q/a and (when q <> 0) c/q -- has normwise relative
+   error eps at the arguments that occur; nothing is assumed about any other argument, so an arithmetic with a bounded
+   exponent range qualifies on the inputs that stay in range *)
+Theorem quadratic_residual_local : forall (eps : R) (O : RoundOps) (a b c : C),
+  (0 <= eps <= / 100)%R -> a <> RtoC 0 -> quad_ops_ok eps O a b c ->
+  exists r0 r1 : C, poly_solve (RoundRAo eps O) [c; b; a] false = Ok ([r0; r1], []) /\
+    forall x : C, x = r0 \/ x = r1 ->
+      (Cmod (a * x * x + b * x + c)%C <= 16 * eps * (Cmod a * Cmod x * Cmod x + Cmod b * Cmod x + Cmod c))%R.
+Proof. intros eps O a b c. exact (quadratic_residual_local_lemma eps O a b c). Qed.
+Check quadratic_residual_local : forall (eps : R) (O : RoundOps) (a b c : C),
+  (0 <= eps <= / 100)%R -> a <> RtoC 0 -> quad_ops_ok eps O a b c ->
+  exists r0 r1 : C, poly_solve (RoundRAo eps O) [c; b; a] false = Ok ([r0; r1], []) /\
+    forall x : C, x = r0 \/ x = r1 ->
+      (Cmod (a * x * x + b * x + c)%C <= 16 * eps * (Cmod a * Cmod x * Cmod x + Cmod b * Cmod x + Cmod c))%R.
+Print Assumptions quadratic_residual_local.
+Example quadratic_residual_local_nonvacuous :
+  (0 <= / 1024 <= / 100)%R /\ RtoC 1 <> RtoC 0 /\ quad_ops_ok (/ 1024) (pert_ops (/ 1024)) (RtoC 1) (RtoC (-5)) (RtoC 2).
+Proof. exact quad_ops_ok_nonvacuous. Qed.
+
 (* degree 2, backward form: each returned value is an EXACT root of a quadratic whose three coefficients are within 16 eps,
    relatively and componentwise (the perturbation depends on the root) *)
 Theorem quadratic_backward_error : forall (eps : R) (O : RoundOps) (a b c : C),
